@@ -80,6 +80,7 @@ def r2_r3(ctx):
     ctx.touch(fn)
     LEN = ("fld", ("arg", 0), "pdu_header.len")
     VER = ("fld", ("arg", 0), "pdu_header.ver")
+    TYPE = ("fld", ("arg", 0), "pdu_header.type")   # read through rtr_get_pdu_type or directly
     ncell = 0
     bad = []
     for t in list(range(0, 13)) + [255]:
@@ -99,7 +100,7 @@ def r2_r3(ctx):
                         if inst.callee == "rtr_get_pdu_type":
                             return flow.av_in(t)
                         return None
-                h = H(fn, pdb, lambda inst, E, st: None, None, None, None, None, None, {LEN: ln, VER: ver})
+                h = H(fn, pdb, lambda inst, E, st: None, None, None, None, None, None, {LEN: ln, VER: ver, TYPE: t})
                 fl = flow.Flow(fn, h)
                 fl.run()
                 rets = {flow.av_single(av) for (i, p, av, f, tr) in fl.ret_states}
@@ -123,6 +124,21 @@ def r2_r3(ctx):
                 cmps.append(i)
     cmps.sort(key=lambda i: i.line)
     if not cmps:
+        # the comparisons exist but in 32 bits: 16 + encapsulated length (+ text length) wraps for lengths near 2^32
+        narrow = []
+        for i in fn.all_insts():
+            if i.op == "icmp" and i.get("opty") == "i32":
+                a, b = vf.expr(fn, i["a"]), vf.expr(fn, i["b"])
+                for x, y in ((a, b), (b, a)):
+                    if vf.mentions(x, lambda e: isinstance(e, tuple) and len(e) == 2 and e[0] == "load" and (vf.last_field(e[1]) or "") == "pdu_error.len") and \
+                            vf.mentions(y, lambda e: isinstance(e, tuple) and len(e) == 2 and e[0] == "load" and (vf.last_field(e[1]) or "") == "pdu_error.len_enc_pdu"):
+                        narrow.append(i)
+        if narrow:
+            ctx.violation("C04.R3", "nested-length-chain", narrow[0].loc(),
+                          "the Error Report's total length is compared with 16 + encapsulated length computed in 32 bits: an encapsulated "
+                          "length near 2^32 wraps the sum, passes the bound, and the text length is read far outside the buffer",
+                          key="C04.R3:chain")
+            return
         raise AnalysisBroken("rtr_pdu_check_size: no 64-bit length comparison found in the Error Report arm")
     if not ctx.check(len(cmps) == 3, "C04.R3", "nested-length-chain", cmps[0].loc(),
                      "%d of the three length comparisons (>= 16, >= 16+encapsulated, == 16+encapsulated+text) present" % len(cmps), key="C04.R3:chain"):
